@@ -4,6 +4,7 @@
   (`Atomman/Generated/MillerTables.lean`, regenerated from miller.py on every run).
 -/
 import Atomman.C16
+import Proofs.C16_String
 import Mathlib.Tactic.Ring
 import Mathlib.Tactic.Linarith
 import Mathlib.Tactic.LinearCombination
